@@ -191,6 +191,9 @@ def jobs(tier):
                             continue
                         js.append(Job(M, "job_dft", fn=fn, rank=rank, axes=axes, center=center, norm=norm, with_oshape=False, in_dtype="complex128"))
             js.append(Job(M, "job_dft", fn=fn, rank=rank, axes=None, center=True, norm="ortho", with_oshape=True, in_dtype="complex64"))
+            if rank == 1:
+                # the normalisation of the unnormalised transforms must use the OUTPUT lengths when an output shape is given
+                js.append(Job(M, "job_dft", fn=fn, rank=rank, axes=None, center=True, norm=None, with_oshape=True, in_dtype="complex128"))
             js.append(Job(M, "job_dft", fn=fn, rank=rank, axes=(-1,), center=True, norm="ortho", with_oshape=False, in_dtype="float64"))
             js.append(Job(M, "job_dft", fn=fn, rank=rank, axes=(-1,), center=False, norm="ortho", with_oshape=False, in_dtype="complex64"))
     return js
